@@ -142,6 +142,26 @@ pub fn recover_and_check(image: &Image, dirs: &BTreeSet<PathBuf>, cands: &[Model
     let fs = VerifFs::from_image(image, dirs);
     let c = |s: &str| format!("{}.{}", prefix, s);
     let db = DB::open(db_options(&fs, cfg)).map_err(|e| Violation::new(&c("open_fails"), format!("DB::open fails on the crash image: {}", e)))?;
+    if opts.check_directory {
+        // the recovery itself reclaims what the crash left behind: once the background work it
+        // started has gone idle — before any read or write of ours — the directory is exact
+        let probe = db.verif_probe();
+        let mut spins = 0u32;
+        while probe.background_work_pending() {
+            if parking_lot::verif_rt::in_execution() {
+                shuttle::thread::yield_now();
+            }
+            spins += 1;
+            if spins > 1_000_000 {
+                break;
+            }
+        }
+        if let Err(mut v) = check_directory(&db, &fs) {
+            v.detail = format!("right after the recovery (no operation issued yet): {}", v.detail);
+            drop(db);
+            return Err(v);
+        }
+    }
     let got = read_contents(&db, keys).map_err(|v| Violation::new(&c(v.clause.trim_start_matches("recover.")), v.detail))?;
     let matched = match cands.iter().find(|m| **m == got) {
         Some(m) => m.clone(),
